@@ -39,6 +39,22 @@ CLAIMED = {
              "whitespace for the non-whitespace-preservation theorem (guaranteed by the walkers, C11).",
         technique="Coq proof (induction over streams, invariant relating the counter to the open-element stack) + "
                   "translated tables + differential correspondence via extraction"),
+    "C13": dict(
+        category="proof",
+        text="is_optional_start/is_optional_end are translated statement by statement into decision trees on every "
+             "run; theorems for ALL streams and ALL element names: output is the subsequence of kept tokens "
+             "(nothing altered or reordered), every removed token is an attribute-less start tag or an end tag of "
+             "one of the 18 listed elements, and every omission is allowed by the transcribed HTML optional-tag "
+             "rules (Spec/OptionalTags.v) except two recorded deviations enforced by upstream fixtures "
+             "(known findings, with refutation theorems). Universality over names is by a finite check over the "
+             "literals + fresh names, lifted by a proved abstraction theorem (Proofs/DTp.v). Hand-modelled "
+             "slider/__iter__ tied by correspondence. The parse-equivalence clause for conforming documents is "
+             "not proved (needs tree construction); it is exercised by C07's search.",
+        design_ref="DESIGN.md 3 C13, A.8",
+        note="Spec/OptionalTags.v is my transcription of the standard's optional-tag rules (no copy of the "
+             "standard offline).",
+        technique="Coq proof: translated decision trees + finite-abstraction theorem + vm_compute check; "
+                  "induction for the stream-level statements; differential correspondence"),
 }
 
 PENDING_REASON = "not yet built in this round (planned: Coq model + theorems per DESIGN.md section 3); no check is registered, so nothing is claimed"
